@@ -90,24 +90,29 @@ func (comp) Gen(r *rand.Rand, tier string, emit func([]string)) {
 		emit(append(seq, "stats"))
 	}
 	if tier == "thorough" {
-		// every alloc/release sequence over 3 subscribers: depth 6 on a 2-address pool, depth 7 on a 1-address pool
+		// every alloc/release sequence over 3 subscribers: depth 6 on a 2-address pool, depth 7 on a
+		// 1-address pool; and every sequence to depth 5 of those six operations plus the read-only ones
+		// (get, owner of a pool address / of an address outside the network, stats)
 		for gi, g := range []flx.V4{smallGeos[2], smallGeos[4]} {
 			var alpha []string
 			for s := 1; s <= 3; s++ {
 				alpha = append(alpha, fmt.Sprintf("alloc s%d", s), fmt.Sprintf("release s%d", s))
 			}
-			var rec func(p []string, depth int)
-			rec = func(p []string, depth int) {
+			all := append(append([]string{}, alpha...), "get s1", "get s2", fmt.Sprintf("owner %x", g.Net+1),
+				fmt.Sprintf("owner %x", g.Net+2), fmt.Sprintf("owner %x", g.Net+uint32(g.Span())+3), "stats")
+			var rec func(ab, p []string, depth int)
+			rec = func(ab, p []string, depth int) {
 				if depth == 0 {
 					seq := append([]string{newOp(g)}, p...)
 					emit(append(seq, tail(g, 4)...))
 					return
 				}
-				for _, x := range alpha {
-					rec(append(p[:len(p):len(p)], x), depth-1)
+				for _, x := range ab {
+					rec(ab, append(p[:len(p):len(p)], x), depth-1)
 				}
 			}
-			rec(nil, 6+gi)
+			rec(alpha, nil, 6+gi)
+			rec(all, nil, 5-gi)
 		}
 	}
 }
